@@ -21,3 +21,22 @@ OPAQUE_NOTE = ('contracts assumed, not yet discharged by pyvc (their bodies are 
                'get_tag_children, get_tag_descendants, match_defined, match_root, match_placeholder_shown, match_nth, match_empty, '
                'match_id, match_classes, match_attributes, match_range, match_lang, match_default, match_indeterminate, match_dir, '
                'match_contains; termination of the mutual recursion through sub-lists rests on A-ir')
+
+ALL_HTML = ['basic', 'nows', 'multiroot', 'forms', 'ranges', 'lang', 'dir', 'iframe', 'text', 'attrs', 'identical']
+ALL_XML = ['ns', 'svghtml', 'plain']
+
+
+def hub_bounded(name, docs, groups, nsnames=('none',)):
+    def run(ctx):
+        from pyvc import bounded
+        return bounded.run_hub(name, docs, groups, nsnames=nsnames, tier=ctx['tier'], seed=ctx['seed'], jobs=ctx['jobs'])
+    run.__name__ = name
+    return run
+
+
+def laws_bounded(name, docs, groups, nsnames=('none',)):
+    def run(ctx):
+        from pyvc import bounded
+        return bounded.run_laws(name, docs, groups, nsnames=nsnames, tier=ctx['tier'], seed=ctx['seed'], jobs=ctx['jobs'])
+    run.__name__ = name
+    return run
